@@ -60,6 +60,8 @@ import time as _realtime
 import zlib
 from unittest import mock
 
+import kazoo.exceptions
+
 from . import core, tlc, zkfake
 
 core.ensure_repo_on_path()
@@ -282,7 +284,10 @@ class World:
                 fire(lambda it: it[0] == 'list' or it[1] <= store.writes)
 
         store.writes = 0
-        store.fail_at = cut or None
+        store.fail_at = abs(cut) or None
+        # cut < 0: the k-th write is refused with a server error (not retried by kazoo) and ZooKeeper
+        # keeps serving; cut > 0: the process dies there
+        store.fail_exc = _Refused if cut < 0 else None
         store.gate = gate
         crashed = False
         shim = _TimeShim(self)
@@ -299,13 +304,15 @@ class World:
         try:
             with mock.patch.object(app_zk, 'time', shim):
                 fn()
-        except zkfake.InjectedCrash:
-            crashed = True
+        except (zkfake.InjectedCrash, _Refused):
+            crashed = True          # the archiver stopped at that write
         finally:
             del self.zk.get_children
             store.gate = None
             store.fail_at = None
-        applied = store.writes - (1 if crashed else 0)
+            store.fail_exc = None
+        refused = bool(cut) and store.writes >= abs(cut)
+        applied = store.writes - (1 if refused else 0)
         if not crashed:
             fire(lambda it: True)       # the run ended before the planned point
         else:
@@ -423,6 +430,10 @@ class Session:
         return False
 
 
+class _Refused(kazoo.exceptions.SystemZookeeperError):
+    """The injected refusal of one write (a ZooKeeper server error; not in kazoo's retry set)."""
+
+
 def build(setup):
     w = World()
     for step in setup:
@@ -436,7 +447,8 @@ def _line(ev, step, res, post):
                 batch=step[2] if ev == 'Archive' else 0,
                 expiry=int(round(step[3] * 1000)) if ev == 'Archive' else 0,
                 max=step[2] if ev == 'Prune' else 0,
-                cut=(step[4] if ev == 'Archive' else step[3]) if ev in ('Archive', 'Prune') else 0,
+                cut=abs(step[4] if ev == 'Archive' else step[3]) if ev in ('Archive', 'Prune') else 0,
+                fault=bool(ev in ('Archive', 'Prune') and (step[4] if ev == 'Archive' else step[3]) < 0),
                 crashed=bool(res.get('crashed', False)), nw=int(res.get('nw', 0)),
                 injected=bool(ev == 'Archive' and any(it[2][0] != 'Read' for it in step[5])),
                 added=res['added'], unsched=res['unsched'], newsched=res['newsched'],
